@@ -273,6 +273,7 @@ func c10r3(c *Ctx) {
 		c.check(okConst, R, f.Key+": removes FLAG_COMPRESS", c.pos(flag), "p.Flag -= FLAG_COMPRESS", "the flag removed by Decompress is not the one TryCompress installs")
 		c.check(len(dec[0].Expr.Args) == 1 && prog.MentionsField(info, dec[0].Expr.Args[0], "cmem.CArray.Body"), R, f.Key+": decompresses its own body", dec[0].Pos(), "CDecompressSafe(p.Body)", "Decompress does not decompress the payload's own body")
 	}
+	c10r3b(c)
 }
 
 func c10r4(c *Ctx) {
